@@ -20,8 +20,11 @@ MODELLED_NOT_VERIFIED = [
     "C14: the Lean functions walk/pairNode/mirror/lookup/meanPairwise/meanNearest, scanT/scanL/tail/treeMrca/collapseBasal, njJoin/njPick/njRun, "
     "upJoin/upPick/upRun are hand-written from PhylogeneticDistanceMatrix.compile_from_tree/_mirror_lookups/_calculate_mean_*, Tree.mrca, "
     "nj_tree, upgma_tree; tied to the code by the per-case comparison",
-    "C14: the theorems are proved for every commutative monoid / field of numbers; the driver instantiates them with the exact rationals "
-    "`Frac` (Basic/Frac.lean), whose arithmetic laws are not proved here; binary64 rounding in the library is not modelled "
+    "C14: the theorems are proved for every commutative monoid / field of numbers and transported to the type the driver runs: "
+    "`toRat` commutes with every `Frac` operation on fractions with non-zero denominator (Aux.toRat_add/sub/mul/div/natCast/lt), the models are "
+    "natural in the number type (entries_nat, table_nat, nj_run_rel, up_run_rel), hence frac_pdm_spec, frac_pdm_lookup_spec, "
+    "frac_nj_rowsum_invariant, frac_nj_tree, frac_upgma_tree speak about `entries fracLen taxonKey`, `njTree`, `upgmaTree` at `Frac`; the summaries "
+    "(meanPairwise/meanNearest) and Tree.mrca (no arithmetic) are not transported separately. binary64 rounding in the library is not modelled "
     "(exact comparison on dyadic inputs; means, normalised values and NJ branch lengths within 1e-9)",
     "C14: NJ/UPGMA consistency (a Q-minimal pair of an additive metric is a cherry; a minimal pair of an ultrametric is a sibling pair) is "
     "NOT proved; clause (d) is tested: executed on implementation and model for generated additive/ultrametric inputs and compared with the generating tree",
@@ -31,15 +34,17 @@ MODELLED_NOT_VERIFIED = [
 EXPLANATION = ("Theorems (Props/C14.lean), for every tree and every number type with the stated laws: (a) pdm_pairs_once (the pairing loop writes one "
                "cell per unordered leaf pair, a permutation of all pairs i<j, polytomies and unary nodes included), pdm_cells_nodup, pdm_spec / "
                "pdm_lookup_spec (each cell = length and edge count of the unique path, ancestor = node where it turns), pdm_symm, pdm_diag, "
-               "pdm_mrca_spec; (b) summaries_spec (mean pairwise = mean of path lengths over retained pairs, Null iff none), nearest_spec; "
-               "(c) tree_mrca_spec + tree_mrca_deepest (mask-guided descent incl. unifurcation tail returns the deepest covering node when the "
-               "encoding is current), tree_mrca_refresh_current / tree_mrca_refresh_spec / tree_mrca_current_spec (the whole call), "
-               "tree_mrca_stale_example (decided counter-example: the hypothesis is needed); (d) nj_rowsum_invariant (+ init/join/step/pick lemmas), "
-               "nj_lengths_formula, nj_cherry_step, nj_terminates, upgma_avg_spec (+ upgma_join_invariant, upgma_step_invariant), upgma_height_spec, "
-               "upgma_terminates. PARTIAL: nj_recovers_tree_partial / upgma_recovers_tree_partial are one-step lemmas (join of a cherry / of a sibling "
-               "pair yields the contracted tree's state); the consistency lemmas (Q-minimal pair of an additive metric is a cherry; minimal pair of an "
-               "ultrametric is a sibling pair) are NOT proved, so the reconstruction clause (d) is testing: implementation and model are executed on "
-               "generated additive / ultrametric inputs and compared with the generating tree.")
+               "pdm_mrca_spec; (b) distances_spec, mean_pairwise_spec (either weighting, any filter/normalisation: explicit (sum/norm)/count over "
+               "retained unordered pairs, Null iff none), mntd_spec + nearest_spec (nearest-taxon mean read from the compiled table = mean of true "
+               "minima of path values); (c) tree_mrca_spec + tree_mrca_deepest, tree_mrca_reencode_spec (refresh OR never-encoded start; also "
+               "None iff the start node does not cover), tree_mrca_current_spec / tree_mrca_none_current, tree_mrca_value_error, "
+               "tree_mrca_refresh_current, tree_mrca_stale_example (decided counter-example); (d) nj_rowsum_invariant (symmetry only on the n taxa), "
+               "nj_lengths_formula, nj_cherry_step, nj_terminates, upgma_avg_spec, upgma_ultrametric / upgma_tree_ultrametric (every result tree is "
+               "ultrametric, heights = half the joined distance), upgma_terminates; at the driver's own type Frac: frac_pdm_spec, "
+               "frac_pdm_lookup_spec, frac_mean_pairwise, frac_nj_rowsum_invariant, frac_nj_tree, frac_upgma_tree (via toRat homomorphism + naturality). "
+               "PARTIAL: nj_recovers_tree_partial / upgma_recovers_tree_partial are one-step lemmas; the consistency lemmas (Q-minimal pair of an "
+               "additive metric is a cherry; minimal pair of an ultrametric is a sibling pair) are NOT proved, so the reconstruction clause (d) is "
+               "testing: implementation and model are executed on generated additive / ultrametric inputs and compared with the generating tree.")
 
 TOL = 1e-9
 
@@ -170,11 +175,12 @@ def case_pdm(ctx, dendropy, case, pending):
     if n >= 2:
         for k in sorted(want):
             if got.get(k) != want[k]:
+                g = got.get(k, (None, None, None))
                 ctx.fail("pdm-entry", "taxa bits %s: matrix gives (length %s, edges %s, mrca node %s); unique path has (length %s, edges %s, turning node %s)" % (
-                    k, fr(got[k][0]), got[k][1], got[k][2], fr(want[k][0]), want[k][1], want[k][2]), case)
+                    k, "missing" if g[0] is None else fr(g[0]), g[1], g[2], fr(want[k][0]), want[k][1], want[k][2]), case)
                 break
         for (a, b), v in got.items():
-            if got[(b, a)] != v:
+            if got.get((b, a)) != v:
                 ctx.fail("pdm-symmetry", "entry %s differs from its mirror" % ((a, b),), case)
                 break
     # distances(): every unordered pair exactly once
@@ -193,9 +199,10 @@ def case_pdm(ctx, dendropy, case, pending):
         ctx.fail("pdm-taxa", "taxon_iter does not yield exactly the leaf taxa", case)
     if n >= 2:
         mx = pdm.max_pairwise_distance_taxa()
-        if Fraction(pdm.patristic_distance(*mx)) != max(v[0] for v in want.values()):
+        mxb = tuple(tu.bit_of(tns, x) for x in mx)
+        if mxb not in want or want[mxb][0] != max(v[0] for v in want.values()):
             ctx.fail("pdm-max", "max_pairwise_distance_taxa is not a pair at maximal distance", case)
-    pending.append(("pdm " + " ".join(toks), case, show_cells(got), "cells"))
+    pending.append(("pdm " + " ".join(toks), case, (show_cells(got), fr(tu.total_length(tree)), str(len(ids))), "cells"))
     pending.append(("spec " + " ".join(toks), case, show_cells(want), "spec"))
     # summaries
     total = tu.total_length(tree)
@@ -224,6 +231,16 @@ def case_pdm(ctx, dendropy, case, pending):
         line = "summ %s %d %d %s %s" % (kind, 1 if weighted else 0, 1 if norm else 0,
                                         "*" if keep is None else ("-" if not keep else ",".join(map(str, sorted(keep)))), " ".join(toks))
         pending.append((line, case, r, "approx"))
+    for (weighted, norm) in case.get("dists", []):
+        if norm and weighted and total == 0:
+            continue
+        ds = sorted(pdm.distances(is_weighted_edge_distances=weighted, is_normalize_by_tree_size=norm))
+        nf = (total if weighted else Fraction(nedges)) if norm else Fraction(1)
+        wd = sorted((v[0] if weighted else Fraction(v[1])) / nf for (a, b), v in want.items() if a < b)
+        if len(ds) != len(wd) or any(not close(x, y, 1e-12) for x, y in zip(ds, wd)):
+            ctx.fail("pdm-distances", "distances(weighted=%s, normalised=%s) is not the list of path values over the unordered leaf pairs" % (
+                weighted, norm), case)
+        pending.append(("summ dists %d %d * %s" % (1 if weighted else 0, 1 if norm else 0, " ".join(toks)), case, ds, "approx-list"))
     # treemeasure.patristic_distance and NodeDistanceMatrix (oracle only); they may re-encode, so work on rebuilt copies
     if case.get("tm") and n >= 2:
         from dendropy.calculate import treemeasure
@@ -284,6 +301,20 @@ def stale_mutation(tree, ids, how):
                 y.add_child(x)
 
 
+def label_masks(tree):
+    """leaf sets as bit masks with the bit read off the taxon label `t<k>` (independent of TaxonNamespace.accession_index / taxa_bitmask)"""
+    masks = {}
+    for nd in reversed(tu.walk(tree.seed_node)):
+        if not nd._child_nodes:
+            masks[id(nd)] = 0 if nd.taxon is None else (1 << int(nd.taxon.label[1:]))
+        else:
+            m = 0
+            for c in nd._child_nodes:
+                m |= masks[id(c)]
+            masks[id(nd)] = m
+    return masks
+
+
 def shape_of(nd, ids):
     """structure only, same text as the driver's `shape`"""
     return "(" + " ".join([str(ids.of(nd))] + [shape_of(c, ids) for c in nd._child_nodes]) + ")"
@@ -314,7 +345,7 @@ def case_mrca(ctx, dendropy, case, pending):
         start = 0       # a re-encoding may dissolve a child of an unrooted seed: keep the start node out of it
     ctx.case(["mrca", toks, rooted, enc, case.get("how"), target, start, refresh, route],
              len(leaves_lr(tree)) >= 4, sample=case, kind="mrca-" + enc)
-    by_bit = {tns.accession_index(t): t for t in tns}
+    by_bit = {int(t.label[1:]): t for t in tns}      # tree_from_tokens labels the taxon of bit k `t<k>`
     tbits = [i for i in range(target.bit_length()) if target >> i & 1]
     kw = {}
     if start != 0 or case.get("explicit_start"):
@@ -327,7 +358,7 @@ def case_mrca(ctx, dendropy, case, pending):
         kw["taxon_labels"] = [by_bit[b].label for b in tbits]
     else:
         kw["leafset_bitmask"] = target
-    masks0 = tu.leafset_masks(tree)
+    masks0 = label_masks(tree)
     current = all(stored[i] == masks0[id(ids.node(i))] for i in range(len(ids)))
     try:
         with time_limit(30):
@@ -337,7 +368,7 @@ def case_mrca(ctx, dendropy, case, pending):
         got = "ValueError"
     # oracle (c): deepest node below start whose leaves (from-scratch walk of the tree as it is now) include all
     if got != "ValueError" and (current or refresh or stored[start] == 0) and ids.node(start) in tu.walk(tree.seed_node):
-        masks = tu.leafset_masks(tree)
+        masks = label_masks(tree)
         dm = depth_map(tree)
         sub = tu.walk(ids.node(start))
         cover = [x for x in sub if masks[id(x)] & target == target]
@@ -548,8 +579,9 @@ def flush(ctx, pending):
             ok = w[:1] == ["ok"] and "|" in w
             if ok:
                 cells = parse_cells(w[w.index("|") + 1:])
-                ok = show_cells(cells) == got
-            shown = got
+                # cells; `_tree_length` and `_num_edges` of the model against the independent walk (they feed the normalised summaries)
+                ok = show_cells(cells) == got[0] and w[1:3] == [got[1], got[2]]
+            shown = "%s %s | %s" % (got[1], got[2], got[0])
         elif how == "spec":
             w = m.split()
             ok = w[:1] == ["ok"] and show_cells(parse_cells(w[1:])) == got
@@ -560,6 +592,13 @@ def flush(ctx, pending):
                 ok = m == "Null"
             else:
                 ok = m not in ("Null", "ZeroDivisionError", "AssertionError", "bad-op") and close(got, Fraction(m), 1e-12)
+        elif how == "approx-list":
+            shown = " ".join(repr(x) for x in got)
+            try:
+                mv = sorted(Fraction(x) for x in m.split())
+                ok = len(mv) == len(got) and all(close(x, y, 1e-12) for x, y in zip(got, mv))
+            except ValueError:
+                ok = False
         elif how in ("flat", "flat-exact"):
             shown = flat_show(got)
             ok = flat_equal(got, m.split(), how == "flat-exact")
@@ -599,7 +638,8 @@ def gen_summ(rng, bits):
 
 def gen_pdm(ctx, dendropy, rng, max_leaves):
     toks, nn, bits = gen_tokens(ctx, dendropy, rng, max_leaves)
-    case = {"op": "pdm", "tree": toks, "rooted": rng.choice([True, False, None]), "summ": gen_summ(rng, bits)}
+    case = {"op": "pdm", "tree": toks, "rooted": rng.choice([True, False, None]), "summ": gen_summ(rng, bits),
+            "dists": [(rng.random() < 0.5, rng.random() < 0.6)]}
     if len(bits) >= 2 and rng.random() < 0.5:
         case["tm"] = [(rng.choice(bits), rng.choice(bits), rng.random() < 0.6) for _ in range(2)]
     case["ndm"] = rng.random() < 0.25 and nn <= 25
@@ -713,6 +753,8 @@ def norm_case(c):
         c["summ"] = [tuple(x) for x in c["summ"]]
     if "tm" in c and c["tm"]:
         c["tm"] = [tuple(x) for x in c["tm"]]
+    if "dists" in c and c["dists"]:
+        c["dists"] = [tuple(x) for x in c["dists"]]
     if "how" in c and c["how"] is not None:
         c["how"] = tuple(c["how"])
     return c
